@@ -45,7 +45,8 @@ def eval_case(case):
     from distance3d import mpr
     out = dict(id=case["id"], status="", failures=[], undecided=[], info={})
     A, B = build_pair(case)
-    contract = "mpr.mpr_penetration[%s,%s]" % (A["kind"], B["kind"])
+    # placement family is part of the name: known findings are pinned to the family they were observed in
+    contract = "mpr.mpr_penetration[%s,%s;fam=%s]" % (A["kind"], B["kind"], case.get("family"))
     poly = A["kind"] in POLY and B["kind"] in POLY
     L = scale_L(A, B)
     tol = 2e-3 * L
